@@ -61,6 +61,8 @@ structure StepObs where
   claim : Claim := {}
   nodes : List Node := []
   creates : List CreateObs := []
+  /-- the controller's clock after the step, whole seconds since the NodeClaim was created -/
+  now : Nat := 0
 deriving Repr, DecidableEq
 
 /-- what the judge remembers between steps -/
@@ -192,6 +194,59 @@ def Acc.next (a : Acc) (o : StepObs) : Acc :=
 def historyOK (sp : Spec) : Acc → List StepObs → Bool
   | _, [] => true
   | a, o :: os => stepOK sp a o && historyOK sp (a.next o) os
+
+/-! ### The lifecycle moves forward: deadlines
+
+"Its lifecycle moves forward ... instead of retrying forever": a NodeClaim is given five minutes to launch and its
+node fifteen minutes to register (Karpenter's documented liveness TTLs).  A reconcile that is shown a NodeClaim past
+one of these deadlines deletes it.  The bookkeeping that goes with the delete (the NodePool's registration-health
+record) must not stand in its way when the NodePool is simply gone — an orphaned NodeClaim has to go too; only a
+NodePool read that *failed* (anything but NotFound) may put the delete off to the retry.
+
+Judged on its own (`timeoutsOK`), next to `historyOK`: it needs the clock. -/
+
+def launchDeadlineSecs : Nat := 5 * 60
+def registrationDeadlineSecs : Nat := 15 * 60
+
+/-- the reconcile was shown a live NodeClaim that already carries the finalizer (so nothing stops it early) and that
+    is past a deadline: never launched — no instance was ever created for it — and `Launched` has not been true for
+    the launch deadline; or launched, no Node carries the instance's provider id, and `Registered` has not been true
+    for the registration deadline.  `now`: the clock when the reconcile started; `created`: instances created so far,
+    this step included. -/
+def overdue (now created : Nat) (o : StepObs) : Bool :=
+  o.isRec && o.view.present && !o.view.deleting && o.view.finalizer && !isTrue o.view.conds.r &&
+  ((!isTrue o.view.conds.l && created == 0 && decide (o.view.conds.l.ltt + launchDeadlineSecs ≤ now)) ||
+   (isTrue o.view.conds.l && o.nodes.isEmpty && decide (o.view.conds.r.ltt + registrationDeadlineSecs ≤ now)))
+
+/-- the NodePool read answered with an error other than NotFound -/
+def poolReadFailed (o : StepObs) : Bool :=
+  o.calls.any (fun c => c.site == .poolGet && c.out != .ok && c.out != .notFound)
+
+/-- past a deadline the NodeClaim is deleted (the delete is issued; if it succeeds the NodeClaim is terminating or
+    gone), unless the NodePool read failed — then the reconcile must come back: an error or a requeue -/
+def timeoutDeletes (now created : Nat) (o : StepObs) : Bool :=
+  !overdue now created o ||
+  (if o.calls.any (fun c => c.site == .claimDelete) then
+     !o.calls.any (fun c => c.site == .claimDelete && c.out == .ok) || !o.claim.present || o.claim.deleting
+   else poolReadFailed o && (o.result == .err || o.result == .requeue))
+
+/-- the whole history; `now` / `created`: clock and instances before the first step -/
+def timeoutsOK : Nat → Nat → List StepObs → Bool
+  | _, _, [] => true
+  | now, created, o :: os =>
+    timeoutDeletes now (created + okCreates o) o && timeoutsOK o.now (created + okCreates o) os
+
+def firstTimeoutViolation : Nat → Nat → List StepObs → Nat → Option String
+  | _, _, [], _ => none
+  | now, created, o :: os, i =>
+    if timeoutDeletes now (created + okCreates o) o then firstTimeoutViolation o.now (created + okCreates o) os (i + 1)
+    else
+      let which := if isTrue o.view.conds.l then s!"launched, no Node for {now - o.view.conds.r.ltt}s (registration deadline {registrationDeadlineSecs}s)"
+        else s!"not launched for {now - o.view.conds.l.ltt}s (launch deadline {launchDeadlineSecs}s)"
+      let pool := match o.calls.find? (fun c => c.site == .poolGet) with
+        | some c => if c.out == Outcome.notFound then "; the NodePool it names is gone (read answered NotFound)" else ""
+        | none => ""
+      some s!"step {i}: deadline: the NodeClaim is overdue ({which}) and the reconcile did not delete it{pool}"
 
 /-! ### Diagnostics (not part of the judgement) -/
 
